@@ -66,7 +66,21 @@ JudgeNtAssign(e, i) ==
 \* the six comparison results as one number: < 1, <= 2, > 4, >= 8, == 16, != 32
 CmpMask(x, y) == FromInt((IF Lt(x, y) THEN 1 ELSE 0) + (IF Le(x, y) THEN 2 ELSE 0) + (IF Gt(x, y) THEN 4 ELSE 0)
                          + (IF Ge(x, y) THEN 8 ELSE 0) + (IF x = y THEN 16 ELSE 0) + (IF x # y THEN 32 ELSE 0))
+IncDecOps == {"incdec_preinc", "incdec_postinc", "incdec_predec", "incdec_postdec"}
+\* ++/-- on a scaled_integer: the representation moves by one unit of value (b = radix^-exponent); the expression yields the
+\* new value (pre) or the old one (post)
+JudgeNtIncDec(e, i) ==
+    LET a == J(e.l)  b == J(e.r)
+        after == IF i.op \in {"incdec_preinc", "incdec_postinc"} THEN Add(a, b) ELSE Sub(a, b)
+        ret == IF i.op \in {"incdec_preinc", "incdec_predec"} THEN after ELSE a
+        cls == <<"NtKernel", i.op, i.type>>
+    IN [d |-> (IF e.wout # "ok" THEN (IF NtUb(e.wout) THEN "ub" ELSE "unexpected_signal")
+               ELSE IF J(e.wres) # after THEN "wrong_value"
+               ELSE IF J(e.ret) # ret THEN "wrong_value_returned"
+               ELSE IF J(e.bres) # after \/ J(e.want_ret) # ret THEN "oracle_disagrees_with_compiler" ELSE "ok"),
+        nt |-> TRUE, cls |-> cls]
 JudgeNtKernel(e, i) ==
+    IF i.op \in IncDecOps THEN JudgeNtIncDec(e, i) ELSE
     LET a == J(e.l)  b == J(e.r)
         want == CASE i.op = "multiply_widen" -> Mul(a, b)
                   [] i.op = "square" -> Mul(a, a)
